@@ -1,6 +1,7 @@
 (** Every spelling of every well-formed query compiles to exactly the filter and the stages it was
     printed from: nothing is lost, added, reordered or misread.  (Assembly over the per-stage
-    round trips, which are a hypothesis of the section and discharged in QueryRoundtrip.v.) *)
+    round trips, which are a hypothesis of the section and discharged in QueryRoundtrip.v; the continuation
+    handed to a stage is empty or a single pipe, since a printed stage never starts with `|`.) *)
 From Coq Require Import List ZArith NArith Bool Lia Arith.
 From AG Require Import Str F64 Value Json Expr Ops Pipeline Filter Grammar Print Roundtrip_proofs FilterRoundtrip_proofs.
 Import ListNotations.
@@ -68,9 +69,113 @@ Qed.
 Lemma concat_singletons {A} (l : list A) : concat (map (fun x => [x]) l) = l.
 Proof. induction l as [|x l IH]; cbn; [reflexivity | rewrite IH; reflexivity]. Qed.
 
+(** ** a printed stage is non-empty and does not start with a pipe *)
+Definition nph (s : str) : Prop := match s with [] => False | c :: _ => (c =? 124)%N = false end.
+
+Lemma nph_app (s t : str) : nph s -> nph (s ++ t).
+Proof. destruct s; cbn; tauto. Qed.
+
+Lemma ident_not_pipe (c : N) : is_ident_char c = true -> (c =? 124)%N = false.
+Proof. intros H. destruct (N.eqb_spec c 124) as [->|]; [vm_compute in H; discriminate H|reflexivity]. Qed.
+
+Lemma space_not_pipe (c : N) : is_space c = true -> (c =? 124)%N = false.
+Proof. intros H. destruct (N.eqb_spec c 124) as [->|]; [vm_compute in H; discriminate H|reflexivity]. Qed.
+
+Lemma nph_safe (n : str) : safe_name n = true -> nph n.
+Proof.
+  intros Hs. destruct (safe_parts _ Hs) as (c & n' & -> & H1 & _). cbn [nph].
+  apply ident_not_pipe. now apply starts_is_ident.
+Qed.
+
+Lemma nph_ident_text (o : popts) (n : str) : nph (ident_text o n).
+Proof.
+  unfold ident_text. destruct (safe_name n) eqn:Hs; [now apply nph_safe|reflexivity].
+Qed.
+
+Lemma nph_pp_both (o : popts) (e : expr) : wf_expr e = true -> nph (body o e) /\ forall n, nph (pp o n e).
+Proof.
+  induction e as [h refs|e1 IH|c l IHl r IHr|a l IHl r IHr|lo l IHl r IHr|f args|c t e2| v |];
+    intros Hwf;
+    (match goal with |- nph (body o ?e) /\ _ => assert (Hb : nph (body o e)) end;
+     [|split; [exact Hb|intros n; rewrite pp_eq; destruct (parb o n _); [reflexivity|exact Hb]]]);
+    cbn [body].
+  - apply nph_app, nph_ident_text.
+  - reflexivity.
+  - cbn [wf_expr] in Hwf. apply andb_true_iff in Hwf as [Hl Hr]. apply nph_app. now apply IHl.
+  - cbn [wf_expr] in Hwf. apply andb_true_iff in Hwf as [Hl Hr]. destruct a; apply nph_app; now apply IHl.
+  - cbn [wf_expr] in Hwf. apply andb_true_iff in Hwf as [Hl Hr].
+    destruct lo, (po_words o); apply nph_app; now apply IHl.
+  - cbn [wf_expr] in Hwf. apply andb_true_iff in Hwf as [Hs _]. apply andb_true_iff in Hs as [Hs _].
+    apply nph_app. now apply nph_safe.
+  - reflexivity.
+  - destruct v as [s|z|fl|[|]|ns|ns|kvs|l|]; try discriminate Hwf; try reflexivity.
+    + unfold quote_str. destruct (po_dq o); reflexivity.
+    + destruct (Z_to_str_spec z) as (d & ds & E & Hd & _). cbn [wf_expr] in Hwf.
+      apply andb_true_iff in Hwf as [Hz _]. apply Z.leb_le in Hz.
+      destruct (Z.ltb_spec z 0); [lia|]. rewrite E. cbn [app nph].
+      cbn [forallb] in Hd. apply andb_true_iff in Hd as [Hd _]. now apply ident_not_pipe, is_digit_ident.
+  - discriminate Hwf.
+Qed.
+
+Lemma nph_pp (o : popts) (e : expr) (n : nat) : wf_expr e = true -> nph (pp o n e).
+Proof. intros H. now apply nph_pp_both. Qed.
+
+Lemma nph_aggfn (o : popts) (f : aggfn) (tf : str) : aggfn_text o f = Some tf -> nph tf.
+Proof.
+  destruct f as [[c|]|e|e|e|e|e|q e]; cbn [aggfn_text]; try (intros H; injection H as <-; reflexivity).
+  destruct (pct_of q) as [v|]; [|discriminate]. intros H; injection H as <-; reflexivity.
+Qed.
+
+Lemma nph_sep_join (sep x : str) (l : list str) : nph x -> nph (sep_join sep (x :: l)).
+Proof. intros H. destruct l as [|y l]; cbn [sep_join]; [exact H|now apply nph_app]. Qed.
+
+Lemma nph_stage (o : popts) (st : stage) (t : str) :
+  pp_stage o st = Some t -> wf_stage o st = true -> nph t.
+Proof.
+  destruct st as [f|f|pat fields f nd nc|sep arg out|only fs|e|e n|e ns n|n|e n|fns keys|keys desc|];
+    cbn [pp_stage]; intros Ht Hwf; try discriminate Ht;
+    try (injection Ht as <-; reflexivity).
+  - (* expr as name *)
+    injection Ht as <-. cbn [wf_stage] in Hwf. apply andb_true_iff in Hwf as [Hwf _].
+    apply nph_app. now apply nph_pp.
+  - (* aggregation *)
+    cbn [wf_stage] in Hwf. apply andb_true_iff in Hwf as [Hwf _]. apply andb_true_iff in Hwf as [Hne _].
+    destruct fns as [|[n f] fns]; [discriminate Hne|].
+    cbn [map fst snd] in Ht.
+    destruct (all_some _) as [ts|] eqn:Hts in Ht; [|discriminate Ht].
+    injection Ht as <-.
+    apply all_some_cons in Hts as (y & ys & Hy & _ & ->).
+    destruct (aggfn_text o f) as [tf|] eqn:Hf; [|discriminate Hy].
+    cbn [option_map] in Hy. injection Hy as <-.
+    apply nph_app, nph_sep_join, nph_app. exact (nph_aggfn o f tf Hf).
+Qed.
+
+Lemma stages_nph (o : popts) : forall (stages : list stage) (ts : list str),
+  all_some (map (pp_stage o) stages) = Some ts -> forallb (wf_stage o) stages = true -> Forall nph ts.
+Proof.
+  induction stages as [|st stages IH]; intros ts Hts Hwf.
+  - cbn [map all_some] in Hts. injection Hts as <-. constructor.
+  - cbn [map] in Hts. apply all_some_cons in Hts as (t & ts' & Ht & Hts' & ->).
+    cbn [forallb] in Hwf. apply andb_prop in Hwf as [Hwf1 Hwf2].
+    constructor; [exact (nph_stage o st t Ht Hwf1)|exact (IH ts' Hts' Hwf2)].
+Qed.
+
+(** hence the pipe that follows a stage is never doubled *)
+Lemma single_pipe_qtail (o : popts) (ts : list str) :
+  popts_ok o = true -> Forall nph ts -> single_pipe (qtail o ts) = true.
+Proof.
+  intros Ho Hts. destruct ts as [|t ts]; [reflexivity|].
+  unfold single_pipe. rewrite qtail_skip by assumption.
+  pose proof (popts_ws0 o Ho) as Hw. inversion Hts as [|? ? Ht _]; subst.
+  destruct (po_ws0 o) as [|c w]; cbn [app].
+  - destruct t as [|c r]; [destruct Ht|]. cbn [nph] in Ht. cbn [app]. now rewrite Ht.
+  - cbn [forallb] in Hw. apply andb_prop in Hw as [Hc _]. now rewrite (space_not_pipe c Hc).
+Qed.
+
 Section Assembly.
 Hypothesis stage_rt : forall (o : popts) (st : stage) (t k : str),
-  popts_ok o = true -> wf_stage o st = true -> stage_ok st = true -> pp_stage o st = Some t -> stage_stop k = true ->
+  popts_ok o = true -> wf_stage o st = true -> stage_ok st = true -> pp_stage o st = Some t ->
+  stage_stop k = true -> single_pipe k = true ->
   exists lo, p_oper (t ++ k) = POk lo (skip_spaces k) /\ check_lop true lo = Some [st].
 
 (** the loop of [separated_list1]: from just after a stage, it reads every remaining stage, in order,
@@ -95,7 +200,8 @@ Proof.
     destruct fuel as [|f]; [cbn [length] in Hfuel; lia|].
     cbn [sep_list_more]. rewrite ptag_pipe.
     rewrite p_oper_ws by (apply popts_ws0, Ho).
-    destruct (stage_rt o st t (qtail o ts') Ho Hwf1 Hok1 Ht (stage_stop_qtail o ts' Ho)) as (lo & Hp & Hc).
+    destruct (stage_rt o st t (qtail o ts') Ho Hwf1 Hok1 Ht (stage_stop_qtail o ts' Ho)
+                       (single_pipe_qtail o ts' Ho (stages_nph o stages ts' Hts' Hwf2))) as (lo & Hp & Hc).
     rewrite Hp.
     destruct (IH ts' Hts' Hwf2 Hok2 f (lo :: acc)) as (los & Hl & Hm).
     { cbn [length] in Hfuel. rewrite !app_length in Hfuel.
@@ -130,7 +236,8 @@ Proof.
     rewrite qtail_skip by assumption. cbn [eat]. rewrite N.eqb_refl.
     unfold parse_operators, sep_list1.
     rewrite p_oper_ws by (apply popts_ws0, Ho).
-    destruct (stage_rt o st t1 (qtail o ts') Ho Hwf1 Hok1 Ht (stage_stop_qtail o ts' Ho)) as (lo & Hp & Hc).
+    destruct (stage_rt o st t1 (qtail o ts') Ho Hwf1 Hok1 Ht (stage_stop_qtail o ts' Ho)
+                       (single_pipe_qtail o ts' Ho (stages_nph o stages ts' Hts' Hwf2))) as (lo & Hp & Hc).
     rewrite Hp. cbn [pbind].
     destruct (stages_loop o Ho stages ts' Hts' Hwf2 Hok2 (length (skip_spaces (qtail o ts'))) [lo] (le_n _))
       as (los & Hl & Hm).
